@@ -76,7 +76,7 @@ def check(ctx, replay=None):
         if r["violated"]:
             # the model of the code breaks the refinement: confirm on the real code below;
             # by itself a model counterexample is not a verdict
-            ctx.note("TLC: %s violated in %s (model level)" % (r["violated"], r["name"]))
+            raise vlib.Machinery("TLC: %s violated in %s: the specification of the unchanged design does not satisfy its own invariant" % (r["violated"], r["name"]))
 
     # 2. spec -> code: TLC-exported label programs replayed on the real builder,
     #    plain and blown up to real scale
